@@ -821,7 +821,7 @@ class CScriptWitness(ImmutableSerializable):
     __slots__ = ['stack']
 
     def __init__(self, stack=()):
-        object.__setattr__(self, 'stack', stack)
+        object.__setattr__(self, 'stack', tuple(stack))
 
     def __len__(self):
         return len(self.stack)
